@@ -100,10 +100,16 @@ theorem queryTargets_sets (a : Pid) : ∀ (ts : List Pid) (w : WorkerSt),
     · exact queryTargets_sets a rest w
     · exact queryTargets_sets a rest _
 
+theorem WL.release {w : WorkerSt} (h : WL w) (cur : Pid) : WL (w.release cur) := by
+  unfold WorkerSt.release; split
+  · exact h.modProc cur _ releaseDead_result
+  · exact h
+
 /-- the finished branch: `cur` gets a result, the others keep their place -/
 theorem WLx.finish {w : WorkerSt} {cur : Pid} (h : WLx w cur) (x : Proc) (ordQ : List Pid) : WL (w.finish cur x ordQ) := by
   unfold WorkerSt.finish
   dsimp only
+  apply WL.release
   apply WL.foldl _ (fun w' a hw' => hw'.notifyResult a cur _)
   intro p y hy hr
   by_cases e : p = cur
@@ -221,7 +227,10 @@ theorem LInv.handleCmd {s : Sys} (h : LInv s) (i : Wid) (c : Cmd) : LInv (handle
       simp only [handleCmdWith, hx]
       exact (h.setWk (hi.wakeSelecting t)).of_wk rfl
     | some x =>
-      simp only [handleCmdWith, hx]
+      by_cases hd : (Cfg.releaseDead && !x.deliverable) = true
+      · simp only [handleCmdWith, hx, hd, if_true]
+        exact (h.setWk (hi.wakeSelecting t)).of_wk rfl
+      simp only [handleCmdWith, hx, hd, Bool.false_eq_true, if_false]
       refine (h.setWk (WL.wakeSelecting ?_ t)).of_wk rfl
       intro q y hy hr
       by_cases e : q = t
